@@ -818,8 +818,10 @@ func checkModuliLogSize(logQ, logP []int) error {
 // GenModuli generates a valid moduli chain from the provided moduli sizes.
 func GenModuli(LogNthRoot int, logQ, logP []int) (q, p []uint64, err error) {
 
-	if err = checkSizeParams(logN); err != nil {
-		return
+	// The root order 1<<LogNthRoot must fit a uint64 (with 64 it is 0 and the search for primes
+	// congruent to 1 modulo it never ends).
+	if LogNthRoot < 1 || LogNthRoot > 63 {
+		return nil, nil, fmt.Errorf("invalid LogNthRoot: %d is not in [1, 63]", LogNthRoot)
 	}
 
 	if err = checkModuliLogSize(logQ, logP); err != nil {
